@@ -12,6 +12,15 @@ import random
 from spec import records_spec as RS
 
 
+class _Capped(list):
+    """failure list capped PER (key, witness class): known-finding witnesses must never crowd out a different failure"""
+
+    def append(self, f):
+        k = (f.get("key"), f.get("witness_class"))
+        if sum(1 for g in self if (g.get("key"), g.get("witness_class")) == k) < 4:
+            super().append(f)
+
+
 def outcome(thunk):
     try:
         return ("return", thunk())
@@ -78,7 +87,7 @@ def fold_twin_batches():
 def check_writer(tier):
     """write_new_batch / write_batch against the reference encoder and the independent decoder"""
     from kio.records.writers import write_batch, write_new_batch
-    fails, n = [], 0
+    fails, n = _Capped(), 0
     for b in batches(tier) + fold_twin_batches():
         n += 1
         buf = io.BytesIO()
@@ -87,7 +96,7 @@ def check_writer(tier):
         got = buf.getvalue() if k == "return" else r
         if got != want:
             sub_ms = any(RS.ms_of(x.timestamp) % 1000 for x in b.records)
-            if len(fails) < 6:
+            if True:
                 fails.append({"key": "new-batch-bytes", "input": repr(b)[:500], "expected": want.hex()[:200],
                               "observed": got.hex()[:200] if isinstance(got, bytes) else got,
                               "witness_class": "record timestamp with non-zero milliseconds" if sub_ms else None})
@@ -97,7 +106,7 @@ def check_writer(tier):
               and all(x["timestamp_ms"] == RS.ms_of(y.timestamp) and x["offset"] == y.offset and x["key"] == y.key
                       and x["value"] == y.value and x["attributes"] == y.attributes
                       and x["headers"] == [(h.key, h.value) for h in y.headers] for x, y in zip(d["records"], b.records)))
-        if not ok and len(fails) < 6:
+        if not ok:
             fails.append({"key": "independent-decoder-recovers-input", "input": repr(b)[:500], "expected": "records", "observed": repr(d)[:300]})
     return n, fails
 
@@ -117,7 +126,7 @@ def check_reader(tier):
     read->write reproduces the bytes"""
     from kio.records.readers import read_batch
     from kio.records.writers import write_batch
-    fails, n = [], 0
+    fails, n = _Capped(), 0
     srcs = [("reference", d) for d in reference_batches(tier)] + fixtures()
     for origin, data in srcs:
         n += 1
@@ -130,24 +139,31 @@ def check_reader(tier):
         hdr_ok = all(getattr(r, f) == want[f] for f in ("base_offset", "batch_length", "partition_leader_epoch", "crc", "attributes",
                                                        "last_offset_delta", "base_timestamp", "max_timestamp", "producer_id",
                                                        "producer_epoch", "base_sequence")) and buf.tell() == want["consumed"]
-        if not hdr_ok and len(fails) < 8:
+        if not hdr_ok:
             fails.append({"key": "header-fields-as-encoded", "input": data.hex()[:300], "expected": repr(want)[:200], "observed": repr(r)[:200]})
-        rec_ok = len(r.records) == len(want["records"]) and all(
-            RS.ms_of(x.timestamp) == y["timestamp_ms"] and x.offset == y["offset"] and x.key == y["key"] and x.value == y["value"]
+        same_shape = len(r.records) == len(want["records"])
+        rest_ok = same_shape and all(
+            x.offset == y["offset"] and x.key == y["key"] and x.value == y["value"]
             and [(h.key, h.value) for h in x.headers] == y["headers"] for x, y in zip(r.records, want["records"]))
-        if not rec_ok and len(fails) < 8:
-            ms_issue = any(y["timestamp_ms"] % 1000 for y in want["records"])
+        rec_ok = rest_ok and all(RS.ms_of(x.timestamp) == y["timestamp_ms"] for x, y in zip(r.records, want["records"]))
+        # the KNOWN finding is exactly: every timestamp comes back truncated to its whole second and nothing else differs
+        # (anything else - a wrong second, another field - is a different violation and is reported as such)
+        d6 = rest_ok and not rec_ok and all(RS.ms_of(x.timestamp) == (y["timestamp_ms"] // 1000) * 1000
+                                            for x, y in zip(r.records, want["records"]))
+        if not rec_ok:
             fails.append({"key": "records-as-encoded", "input": data.hex()[:300],
                           "expected": [y["timestamp_ms"] for y in want["records"]][:4],
                           "observed": [RS.ms_of(x.timestamp) for x in r.records][:4],
-                          "witness_class": "record timestamp with non-zero milliseconds" if ms_issue else None})
+                          "witness_class": "record timestamp with non-zero milliseconds" if d6 else None})
         out = io.BytesIO()
         k2, r2 = outcome(lambda: write_batch(out, r))
-        if (k2 != "return" or out.getvalue() != data[:want["consumed"]]) and len(fails) < 8:
-            ms_issue = any(y["timestamp_ms"] % 1000 for y in want["records"])
+        if (k2 != "return" or out.getvalue() != data[:want["consumed"]]):
+            # known only when it is the consequence of the truncation above: the writer reproduced exactly what the
+            # reader returned (reference encoding of the returned batch)
+            faithful = k2 == "return" and outcome(lambda: RS.encode_prepared_batch(r)) == ("return", out.getvalue())
             fails.append({"key": "read-then-write-reproduces-bytes", "input": data.hex()[:300], "expected": data[:want["consumed"]].hex()[:200],
                           "observed": out.getvalue().hex()[:200] if k2 == "return" else r2,
-                          "witness_class": "record timestamp with non-zero milliseconds" if ms_issue else None})
+                          "witness_class": "record timestamp with non-zero milliseconds" if d6 and faithful else None})
     return n, fails
 
 
@@ -178,7 +194,7 @@ def check_corruption(tier):
     """every single-bit flip from the CRC field to the end, a wrong magic byte, and every
     truncation make read_batch fail with an error (also validates the CRC axiom natively)"""
     from kio.records.readers import read_batch
-    fails, n = [], 0
+    fails, n = _Capped(), 0
     srcs = [d for _, d in fixtures()] + reference_batches(tier)[:: (6 if tier == "quick" else 1)]
     for data in srcs:
         if len(data) > 400 and tier == "quick":
@@ -189,7 +205,7 @@ def check_corruption(tier):
                 bad = bytearray(data)
                 bad[pos] ^= 1 << bit
                 k, r = outcome(lambda: read_batch(io.BytesIO(bytes(bad))))
-                if k == "return" and len(fails) < 6:
+                if k == "return":
                     fails.append({"key": "bit-flip-detected", "input": f"{data.hex()[:120]} flip byte {pos} bit {bit}",
                                   "expected": "an error", "observed": "returned a batch"})
         for magic in (0, 1, 3, 255):
@@ -197,13 +213,13 @@ def check_corruption(tier):
             bad = bytearray(data)
             bad[16] = magic
             k, r = outcome(lambda: read_batch(io.BytesIO(bytes(bad))))
-            if not (k == "raise" and r == "ValueError") and len(fails) < 6:
+            if not (k == "raise" and r == "ValueError"):
                 fails.append({"key": "wrong-magic-rejected", "input": f"magic={magic}", "expected": "ValueError", "observed": str(r)})
         outcome(lambda: read_batch(io.BytesIO(data)))      # history: the complete batch was read just before
         for cut in range(len(data)):
             n += 1
             k, r = outcome(lambda: read_batch(io.BytesIO(data[:cut])))
-            if k == "return" and len(fails) < 6:
+            if k == "return":
                 fails.append({"key": "truncation-detected", "input": f"{data.hex()[:120]} cut at {cut}", "expected": "an error",
                               "observed": "returned a batch"})
     return n, fails
